@@ -12,7 +12,7 @@ CHECKS = {
     "C03": ("online per-request ledger driven by add/pickup/cancel/drop-off events at a registered Handler, compared with state, balances and the out-of-energy hook", "4 C03", "held on the request streams observed incl. interrupt attempts on loaded vehicles"),
     "C04": ("per-vehicle energy ledger after every step + pre/post-conditions on every real consume_energy/idle/add_energy call + randomized function-level sweep", "4 C04", "held on the powertrain/charger/step-length combinations observed"),
     "C05": ("double-entry ledger from the charge hook, pickup events and state deltas (energy per type, balances); payments priced at the station's price and at an independent calendar reading of the tariff table; summary totals compared with the ledger", "4 C05", "held on the charging sessions observed (station and base charging, changing tariffs, both energy types)"),
-    "C06": ("oracle over move/traverse hook frames: speed bound, odometer = driven distance, junction, driven+remaining = route, journey reconstruction, progress, arrival", "4 C06", "held on the journeys observed over straight-line, generated street grids and the Denver graph"),
+    "C06": ("oracle over move/traverse hook frames: speed bound, odometer = driven distance, junction, driven+remaining = route, journey reconstruction, progress, arrival; state rule: within a journey the stored route is a remainder of the previous step's and is used up only at its end", "4 C06", "held on the journeys observed over straight-line, generated street grids and the Denver graph"),
     "C07": ("location-consistency invariant in every state (stationary activities, route ends, pickup/drop-off places) + bounded systematic exploration", "4 C07", "held on the instructions observed incl. remote targets from every activity"),
     "C08": ("reference model: the eight index maps recomputed from the entity maps after every operation of random add/modify/remove sequences and after every scenario step", "4 C08", "held on the operation sequences observed"),
     "C09": ("atomicity oracle: every captured instruction batch re-applied one by one through the real apply_instructions with deep state fingerprints; precedence oracle from generator/driver wrappers; systematic single-instruction exploration", "4 C09", "held on the (activity, instruction, outcome) triples observed"),
@@ -21,12 +21,12 @@ CHECKS = {
     "C12": ("own eligibility model + own optimum (brute force / network simplex) on every Dispatcher invocation, in-run and on directly generated states", "4 C12", "held on the dispatcher invocations observed"),
     "C13": ("post-conditions on route / position_from_geoid over sampled position pairs on generated grids, the Denver graph and the straight-line network, plus every route requested in scenario runs", "4 C13", "held on the position pairs observed"),
     "C14": ("differential against an independent heap Dijkstra over link travel times (length over speed, default speed where missing, best of parallel streets) on generated grids with varied speeds and the Denver graph", "4 C14", "held on the node pairs observed (all Denver pairs in the thorough tier)"),
-    "C15": ("differential execution: crank(1) x n vs random compositions crank(a1)...crank(am) (generators re-injected, flushes deferred) vs LocalSimulationRunner.run; per-step fingerprints and event multisets compared", "4 C15", "held on the scenarios and splits observed"),
+    "C15": ("differential execution: crank(1) x n vs random compositions crank(a1)...crank(am) (generators re-injected, flushes deferred) vs LocalSimulationRunner.run; per-step fingerprints and event multisets compared; the co-simulation charge table compared between runs; load_scenario + crank vs load_simulation + batch runner for the same generator argument", "4 C15", "held on the scenarios and splits observed"),
     "C16": ("immutability sanitizer: deep fingerprints of all retained states re-checked later; stepping / applying twice from a saved state compared, with an earlier saved state re-stepped and a what-if copy stepped in between, and replays of several steps", "4 C16", "held on the states retained and re-stepped"),
     "C17": ("assignment invariant in every state (recorded vehicle is in DispatchTrip to that request; at most one vehicle per request where only the built-in dispatcher hands out trips) + out-of-energy hook + systematic exploration", "4 C17", "held on the dispatch / interruption / low-energy histories observed"),
-    "C18": ("trace oracle per (station, plug): join step observed from the trace, no grant to a later joiner while an earlier one keeps waiting", "4 C18", "held on the arrival / departure / abandonment patterns observed"),
-    "C19": ("offline checker over the event.log written by the real EventfulHandler (grouped per step by file offset) against state deltas and StatsHandler counters; logs of one-step and several-step co-simulation calls compared", "4 C19", "held on the runs observed through the real file-writing handlers"),
-    "C20": ("integer seconds-of-day shift model from the generated schedule file compared with driver availability, shift events and Dispatcher proposals per step", "4 C20", "held on the shift tables, start times and step lengths observed"),
+    "C18": ("trace oracle per (station, plug): join step observed from the trace, no grant to a later joiner while an earlier one keeps waiting; one and two queues per station, waits from seconds to more than a day", "4 C18", "held on the arrival / departure / abandonment patterns observed"),
+    "C19": ("offline checker over the event.log written by the real EventfulHandler (grouped per step by file offset) against state deltas and StatsHandler counters; logs of one-step and several-step co-simulation calls compared; selective log_sim_config, station loads judged against the charge calls of the step", "4 C19", "held on the runs observed through the real file-writing handlers"),
+    "C20": ("integer seconds-of-day shift model from the generated schedule file compared with driver availability, shift events and Dispatcher proposals per step, incl. drivers added between co-simulation calls", "4 C20", "held on the shift tables, start times and step lengths observed"),
 }
 
 IMPLEMENTED = sys.argv[1].split(",") if len(sys.argv) > 1 else []
